@@ -757,6 +757,23 @@ func (g *Gen) Program() []r.Val {
 	return forms
 }
 
+// isVarName: the names the generator gives to variables: the pool, and the pool names behind i, j, k (loop variables,
+// closure variables), n and q. None of them is ever used as the name of a function.
+func isVarName(s string) bool {
+	if s == "n" || s == "q" {
+		return true
+	}
+	if len(s) == 2 && (s[0] == 'i' || s[0] == 'j' || s[0] == 'k') {
+		s = s[1:]
+	}
+	for _, name := range pool {
+		if s == name {
+			return true
+		}
+	}
+	return false
+}
+
 // caseVary writes about one in eight occurrences of a variable name from the pool in upper case. slip's symbols do not
 // distinguish case, so the program is the same program. Quoted data and keywords stay as they are (pool names are never operators).
 func (g *Gen) caseVary(v r.Val) r.Val {
@@ -770,10 +787,8 @@ func (g *Gen) caseVary(v r.Val) r.Val {
 	out := make([]r.Val, len(l))
 	for i, e := range l {
 		if sy, isSym := e.(r.Sym); isSym {
-			for _, name := range pool {
-				if string(sy) == name && g.pick("upcase", 8) == 0 {
-					e = r.Sym(strings.ToUpper(name))
-				}
+			if isVarName(string(sy)) && g.pick("upcase", 8) == 0 {
+				e = r.Sym(strings.ToUpper(string(sy)))
 			}
 			out[i] = e
 			continue
